@@ -781,6 +781,13 @@ fn schedules_from_bdl(bdl: &Data, id_maps: &IdMaps) -> Result<SchedulesDb, Error
                 // - el día final hasta el que se aplica
                 // - el número de días que está vigente
                 let id = id_maps.schedule_year_id(&sch.name)?;
+                // Fechas fuera del calendario darían periodos de miles de millones de días
+                // (LIDER usa el día 0 para indicar el último día del mes anterior)
+                if sch.months.iter().any(|month| !(1..=12).contains(month))
+                    || sch.days.iter().any(|day| !(0..=31).contains(day))
+                {
+                    bail!("Fechas de fin de periodo fuera de rango en horario anual: {}", sch.name);
+                }
                 let end_day: Vec<_> = std::iter::once(0u32)
                     .chain(
                         sch.days
